@@ -76,6 +76,15 @@ pub trait ReadValue {
 
     /// Return the current position of the reader.
     fn position(&self) -> u64;
+
+    /// Return the number of bytes between the current position and the end
+    /// of the input, if known.
+    ///
+    /// This is used to reject fields whose declared length exceeds the
+    /// remaining input.
+    fn remaining(&self) -> Option<u64> {
+        None
+    }
 }
 
 /// A Protocol Buffers primitive reader that returns owned values.
@@ -85,6 +94,16 @@ pub trait ReadValue {
 #[derive(Default)]
 pub struct ValueReader<R> {
     inner: R,
+
+    /// Total length of the underlying stream.
+    ///
+    /// Lengths declared by fields are validated against this before
+    /// allocating buffers or seeking.
+    len: u64,
+
+    /// Error encountered while determining the stream length. If set, it is
+    /// reported by all reads.
+    len_error: Option<std::io::Error>,
 }
 
 impl<R: BufRead + Seek + Position> ValueReader<R> {
@@ -93,9 +112,43 @@ impl<R: BufRead + Seek + Position> ValueReader<R> {
     /// See [`from_buf`](Self::from_buf) and [`from_file`](Self::from_file)
     /// for convenient wrappers for this which create readers from byte buffers
     /// and files.
-    pub fn new(inner: R) -> Self {
-        Self { inner }
+    pub fn new(mut inner: R) -> Self {
+        match stream_len(&mut inner) {
+            Ok(len) => Self {
+                inner,
+                len,
+                len_error: None,
+            },
+            Err(err) => Self {
+                inner,
+                len: 0,
+                len_error: Some(err),
+            },
+        }
     }
+
+    /// Return an error if fewer than `len` bytes remain in the stream.
+    fn check_remaining(&self, len: usize) -> Result<(), ProtobufError> {
+        if let Some(err) = &self.len_error {
+            return Err(std::io::Error::new(err.kind(), err.to_string()).into());
+        }
+        let remaining = self.len.saturating_sub(self.inner.position());
+        if len as u64 <= remaining {
+            Ok(())
+        } else {
+            Err(ProtobufError::new(ErrorKind::Eof))
+        }
+    }
+}
+
+/// Return the total length of a stream, preserving the current position.
+fn stream_len<R: Seek>(stream: &mut R) -> std::io::Result<u64> {
+    let pos = stream.stream_position()?;
+    let len = stream.seek(SeekFrom::End(0))?;
+    if pos != len {
+        stream.seek(SeekFrom::Start(pos))?;
+    }
+    Ok(len)
 }
 
 impl<T: AsRef<[u8]>> ValueReader<Cursor<T>> {
@@ -116,18 +169,21 @@ impl<R: BufRead + Seek + Position> ReadValue for ValueReader<R> {
     type Types = OwnedValues;
 
     fn read_i32(&mut self) -> Result<i32, ProtobufError> {
+        self.check_remaining(4)?;
         let mut buf = [0; 4];
         self.inner.read_exact(&mut buf)?;
         Ok(i32::from_le_bytes(buf))
     }
 
     fn read_i64(&mut self) -> Result<i64, ProtobufError> {
+        self.check_remaining(8)?;
         let mut buf = [0; 8];
         self.inner.read_exact(&mut buf)?;
         Ok(i64::from_le_bytes(buf))
     }
 
     fn read_varint(&mut self) -> Result<u64, ProtobufError> {
+        self.check_remaining(1)?;
         let value = read_varint(&mut self.inner)?;
         Ok(value)
     }
@@ -136,6 +192,7 @@ impl<R: BufRead + Seek + Position> ReadValue for ValueReader<R> {
         &mut self,
         len: usize,
     ) -> Result<<Self::Types as FieldTypes>::Bytes, ProtobufError> {
+        self.check_remaining(len)?;
         let mut buf = vec![0; len];
         self.inner.read_exact(&mut buf)?;
         Ok(buf)
@@ -150,12 +207,20 @@ impl<R: BufRead + Seek + Position> ReadValue for ValueReader<R> {
     }
 
     fn skip(&mut self, len: usize) -> Result<(), ProtobufError> {
+        self.check_remaining(len)?;
         self.inner.seek_relative(len as i64)?;
         Ok(())
     }
 
     fn position(&self) -> u64 {
         self.inner.position()
+    }
+
+    fn remaining(&self) -> Option<u64> {
+        if self.len_error.is_some() {
+            return None;
+        }
+        Some(self.len.saturating_sub(self.inner.position()))
     }
 }
 
@@ -323,6 +388,11 @@ impl<'a, R: ReadValue> ReadValue for LimitReader<'a, R> {
 
     fn position(&self) -> u64 {
         self.inner.position()
+    }
+
+    fn remaining(&self) -> Option<u64> {
+        let remaining = self.end.saturating_sub(self.position());
+        Some(remaining.min(self.inner.remaining().unwrap_or(u64::MAX)))
     }
 }
 
